@@ -249,6 +249,14 @@ def _resugar(n):
         if isinstance(v, (dict, list)):
             n[key] = _resugar(v)
     k = n.get("k")
+    if k == "mcall" and n.get("m") == "for_each" and (n.get("def") or "").endswith("Iterator::for_each") and len(n.get("args", [])) == 1:
+        # it.for_each(|x| body)  ==  for x in it { body }   (a `return` inside the closure would be a `continue`: left alone)
+        clo = n["args"][0]
+        while clo.get("k") == "block" and not clo.get("stmts") and clo.get("e") is not None:
+            clo = clo["e"]
+        if clo.get("k") == "closure" and len(clo.get("params", [])) == 1 and not any(x.get("k") == "ret" for x in walk(clo["body"])):
+            return {"k": "for", "pat": clo["params"][0], "iter": n["recv"], "body": clo["body"], "sp": n.get("sp"), "ty": "()",
+                    "from_for_each": True}
     if k == "match" and n.get("src") == "ForLoopDesugar":
         # match into_iter(ITER) { mut iter => loop { match next(&mut iter) { None => break, Some(PAT) => BODY } } }
         try:
